@@ -9,6 +9,38 @@ use crate::Error;
 /// A newtype for [KValue] that implements [Serialize](serde_core::Serialize).
 pub struct SerializableKValue<'a>(pub &'a KValue);
 
+thread_local! {
+    // The addresses of the lists and maps that are currently being serialized,
+    // a container that contains itself would otherwise be serialized endlessly.
+    static PARENT_CONTAINERS: std::cell::RefCell<Vec<usize>> = const { std::cell::RefCell::new(Vec::new()) };
+}
+
+// Registers a container as being serialized until the guard is dropped
+struct ParentContainerGuard;
+
+impl ParentContainerGuard {
+    fn new<E: ser::Error>(container_address: usize) -> Result<Self, E> {
+        PARENT_CONTAINERS.with_borrow_mut(|parents| {
+            if parents.contains(&container_address) {
+                Err(ser::Error::custom(
+                    "serialization isn't supported for a container that contains itself",
+                ))
+            } else {
+                parents.push(container_address);
+                Ok(Self)
+            }
+        })
+    }
+}
+
+impl Drop for ParentContainerGuard {
+    fn drop(&mut self) {
+        PARENT_CONTAINERS.with_borrow_mut(|parents| {
+            parents.pop();
+        });
+    }
+}
+
 impl Serialize for SerializableKValue<'_> {
     fn serialize<S>(&self, s: S) -> Result<S::Ok, S::Error>
     where
@@ -25,8 +57,10 @@ impl Serialize for SerializableKValue<'_> {
                 }
             }
             KValue::List(l) => {
-                let mut seq = s.serialize_seq(Some(l.len()))?;
-                for element in l.data().iter() {
+                let data = l.data();
+                let _guard = ParentContainerGuard::new(&*data as *const _ as usize)?;
+                let mut seq = s.serialize_seq(Some(data.len()))?;
+                for element in data.iter() {
                     seq.serialize_element(&SerializableKValue(element))?;
                 }
                 seq.end()
@@ -39,8 +73,10 @@ impl Serialize for SerializableKValue<'_> {
                 seq.end()
             }
             KValue::Map(m) => {
-                let mut seq = s.serialize_map(Some(m.len()))?;
-                for (key, value) in m.data().iter() {
+                let data = m.data();
+                let _guard = ParentContainerGuard::new(&*data as *const _ as usize)?;
+                let mut seq = s.serialize_map(Some(data.len()))?;
+                for (key, value) in data.iter() {
                     seq.serialize_entry(&key.to_string(), &SerializableKValue(value))?;
                 }
                 seq.end()
